@@ -10,7 +10,7 @@ def canon(line):
     """Per connection and step, join/leave events are reduced to their net effect: the close of an internal
     client's virtual sessions runs in its own goroutine, so a session joining the room in the same step may or
     may not see them come and go."""
-    toks = line.split()
+    toks = [t for t in line.split() if not t.startswith("F=")]   # federated list: judged (C07), not modelled
     joins, leaves, rest = {}, {}, []
     for t in toks:
         if "=" in t and t[0] == "c":
